@@ -663,7 +663,7 @@ func (rn *runner[G, S]) runHistory(p histParams) *histCase[G, S] {
 							"C06_mixed_epochs (shares of different epochs do not combine)")
 					}
 				}
-				if rn.sign != nil && t == 0 && (rn.a.Tier == "thorough" || r.Chance(1, 2)) {
+				if rn.sign != nil && t == 0 && (rn.a.Tier == "thorough" || vh.NewRng(rn.a.Seed, prop, "signmix/"+c.name, p.idx*1000+step).Chance(1, 2)) {
 					ms := map[uint64]*mpc.BaseShard[G, S]{}
 					for _, x := range a {
 						ms[x] = cur.shards[x]
@@ -712,9 +712,10 @@ func (rn *runner[G, S]) runHistory(p histParams) *histCase[G, S] {
 		// ---- a threshold signature with the shards of this epoch must verify under the ORIGINAL key
 		if rn.sign != nil && (step == length || rn.a.Tier == "thorough") {
 			if sall, smin := cur.qualifiedSets(0); len(sall) > 0 {
-				sq := vh.Pick(r, sall)
-				if len(smin) > 0 && r.Chance(1, 2) {
-					sq = vh.Pick(r, smin)
+				rs := vh.NewRng(rn.a.Seed, prop, "sign/"+c.name, p.idx*1000+step) // own stream: the history does not depend on the tier
+				sq := vh.Pick(rs, sall)
+				if len(smin) > 0 && rs.Chance(1, 2) {
+					sq = vh.Pick(rs, smin)
 				}
 				msg := []byte(fmt.Sprintf("c06 message %d/%d", p.idx, step))
 				if bad := rn.sign(fmt.Sprintf("%s-h%d-s%d", c.name, p.idx, step), msg, first, cur.shards, sq); bad != "" {
@@ -994,8 +995,9 @@ func (rn *runner[G, S]) runZero(idx int, deviate bool) *zeroCase[G, S] {
 func (rn *runner[G, S]) compareZero(zc *zeroCase[G, S], out string) {
 	c := rn.c
 	what := "correspondence Zero.hjky_party (model fed with the tapes) vs pkg/mpc/zero/hjky"
+	propFails := false
 	corr := func(key, detail string) {
-		rn.res.Mismatch(vh.Mismatch{ID: zc.id, Kind: "corr", Key: key, Detail: detail, Case: zc.text, PropFail: false, What: what})
+		rn.res.Mismatch(vh.Mismatch{ID: zc.id, Kind: "corr", Key: key, Detail: detail, Case: zc.text, PropFail: propFails, What: what})
 	}
 	f := strings.Fields(out)
 	if len(f) != 2+len(zc.ids) || f[1] != zc.id {
@@ -1035,7 +1037,9 @@ func (rn *runner[G, S]) compareZero(zc *zeroCase[G, S], out string) {
 		case strings.HasPrefix(tok, "blame:"):
 			// one-sided: the model blames the deviating dealer; the implementation must not accept
 			if v.Class == "ok" {
+				propFails = true // accepting a dealing that does not commit to zero is the property failure itself
 				corr("hjky-verdict", fmt.Sprintf("party %d: model %s, implementation accepts", x, tok))
+				propFails = false
 			} else if v.Class == "reject_blame" && v.String() != "reject_blame{"+strings.TrimPrefix(tok, "blame:")+"}" {
 				corr("hjky-blame", fmt.Sprintf("party %d: model %s, implementation %s", x, tok, v.String()))
 			}
@@ -1049,16 +1053,22 @@ func (rn *runner[G, S]) compareZero(zc *zeroCase[G, S], out string) {
 
 // ---- deviating previous holder in a redistribution -----------------------------------------------
 
-func (rn *runner[G, S]) runDeviation(idx int) {
+type devCase struct {
+	id, text, line string
+	holders        []uint64 // next holders other than the deviating party, ascending
+	verdicts       map[uint64]drive.Verdict
+}
+
+func (rn *runner[G, S]) runDeviation(idx int) *devCase {
 	c := rn.c
 	r := vh.NewRng(rn.a.Seed, prop, "dev/"+c.name, idx)
 	id := fmt.Sprintf("V-%s-%d", c.name, idx)
 	h := pickDistinct(r, poolSmall, 2+r.Intn(3), nil)
 	cur := rn.genEpoch(r, h, "TUNG")
-	dealer := vh.NewRng(rn.a.Seed, prop, "devdealer/"+c.name, idx)
+	dealer := drive.NewTape(vh.NewRng(rn.a.Seed, prop, "devdealer/"+c.name, idx))
 	shards, err := trusteddealer.Deal(c.g, cur.ac, dealer)
 	if err != nil {
-		return
+		return nil
 	}
 	for sid, sh := range shards.Iter() {
 		cur.shards[uint64(sid)] = sh
@@ -1066,12 +1076,12 @@ func (rn *runner[G, S]) runDeviation(idx int) {
 	pk0 := cur.shards[cur.holders[0]].PublicKeyValue()
 	sec, err := cur.sch.Reconstruct(sharesOf(cur.shards, cur.holders)...)
 	if err != nil {
-		return
+		return nil
 	}
 	s0 := bigOf(sec.Value())
 	all, _ := cur.qualifiedSets(0)
 	if len(all) == 0 {
-		return
+		return nil
 	}
 	quorum := vh.Pick(r, all)
 	// next holders: some newcomers (no trusted data of their own), maybe some old ones
@@ -1183,6 +1193,59 @@ func (rn *runner[G, S]) runDeviation(idx int) {
 	}
 	class := fmt.Sprintf("deviation mode=%d accepted=%v", mode, accepted > 0)
 	rn.res.Count(class, cs, true)
+
+	// model input: the same step with the same deviation; the model's Round3 gives every victim's verdict
+	dc := &devCase{id: id, text: cs, verdicts: map[uint64]drive.Verdict{}}
+	for _, x := range next.holders {
+		if x != dev {
+			dc.holders = append(dc.holders, x)
+			dc.verdicts[x] = full.Trace.Verdicts[sharing.ID(x)]
+		}
+	}
+	un, uerr := unanimity.NewUnanimityAccessStructure(dred.IDSet(quorum))
+	if uerr != nil {
+		return nil
+	}
+	zm, uerr := accessstructures.InducedMSP(c.f, un)
+	if uerr != nil {
+		return nil
+	}
+	var dreads []string
+	for i := range dealer.Reads {
+		dreads = append(dreads, vh.Hex(dealer.Slice(i)))
+	}
+	dc.line = strings.Join([]string{"V", id, vh.ZHex(c.q), mspText(cur.m), strings.Join(dreads, ","), mspText(next.m),
+		idsText(quorum), strconv.FormatUint(anchor, 10), mspText(zm), rndText(full.Trace, quorum, "r1"), rndText(full.Trace, quorum, "r2"),
+		coefsText(cur.m, quorum), coefsText(zm, quorum), strconv.FormatUint(dev, 10), strconv.Itoa(mode), vh.ZHex(bigOf(delta))}, " ")
+	return dc
+}
+
+// compareDeviation: where the model's Round3 refuses, the implementation must not accept; where both
+// blame, they blame the same party (the implementation may be stricter than the model).
+func (rn *runner[G, S]) compareDeviation(dc *devCase, out string) {
+	what := "correspondence Redist.round3 (refusal branches: pieces, consistency with trusted data, partial public keys, old pk = new pk) vs pkg/mpc/redistribute Round3"
+	f := strings.Fields(out)
+	if len(f) != 2+len(dc.holders) || f[1] != dc.id {
+		rn.res.Mismatch(vh.Mismatch{ID: dc.id, Kind: "corr", Key: "model-output-malformed", Detail: out, Case: dc.text, What: what})
+		return
+	}
+	for k, x := range dc.holders {
+		tok := strings.TrimPrefix(f[2+k], strconv.FormatUint(x, 10)+":")
+		v := dc.verdicts[x]
+		switch {
+		case tok == "ok":
+			if v.Class != "ok" {
+				rn.res.Distribution["deviation: implementation stricter than model"]++
+			}
+		case v.Class == "ok":
+			rn.res.Mismatch(vh.Mismatch{ID: dc.id, Kind: "corr", Key: "round3-verdict", Case: dc.text, What: what,
+				Detail: fmt.Sprintf("holder %d: model %s, implementation accepts", x, tok)})
+		case strings.HasPrefix(tok, "blame:") && v.Class == "reject_blame" && v.String() != "reject_blame{"+strings.TrimPrefix(tok, "blame:")+"}":
+			rn.res.Mismatch(vh.Mismatch{ID: dc.id, Kind: "corr", Key: "round3-blame", Case: dc.text, What: what,
+				Detail: fmt.Sprintf("holder %d: model %s, implementation %s", x, tok, v.String())})
+		}
+		rn.res.Distribution["deviation verdict model="+strings.SplitN(tok, ":", 2)[0]+" impl="+v.Class]++
+	}
 }
 
 // ---- refused step: the driving set is not qualified --------------------------------------------
@@ -1242,6 +1305,7 @@ func runGroup[G algebra.PrimeGroupElement[G, S], S algebra.PrimeFieldElement[S]]
 	var lines []string
 	var hcs []*histCase[G, S]
 	var zcs []*zeroCase[G, S]
+	var dcs []*devCase
 	if only != nil {
 		switch only["kind"] {
 		case "H":
@@ -1257,7 +1321,9 @@ func runGroup[G algebra.PrimeGroupElement[G, S], S algebra.PrimeFieldElement[S]]
 			zcs = append(zcs, rn.runZero(idx, only["deviate"] == "true"))
 		case "V":
 			idx, _ := strconv.Atoi(only["idx"])
-			rn.runDeviation(idx)
+			if dc := rn.runDeviation(idx); dc != nil {
+				dcs = append(dcs, dc)
+			}
 		case "R":
 			idx, _ := strconv.Atoi(only["idx"])
 			rn.runRefused(idx)
@@ -1274,7 +1340,9 @@ func runGroup[G algebra.PrimeGroupElement[G, S], S algebra.PrimeFieldElement[S]]
 			zcs = append(zcs, rn.runZero(i, true))
 		}
 		for i := 0; i < nDev; i++ {
-			rn.runDeviation(i)
+			if dc := rn.runDeviation(i); dc != nil {
+				dcs = append(dcs, dc)
+			}
 		}
 		for i := 0; i < nRef; i++ {
 			rn.runRefused(i)
@@ -1285,6 +1353,9 @@ func runGroup[G algebra.PrimeGroupElement[G, S], S algebra.PrimeFieldElement[S]]
 	}
 	for _, zc := range zcs {
 		lines = append(lines, zc.line)
+	}
+	for _, dc := range dcs {
+		lines = append(lines, dc.line)
 	}
 	if len(lines) == 0 {
 		return
@@ -1301,6 +1372,9 @@ func runGroup[G algebra.PrimeGroupElement[G, S], S algebra.PrimeFieldElement[S]]
 	for i, zc := range zcs {
 		rn.compareZero(zc, outs[len(hcs)+i])
 		res.Count("hjky "+c.name, zc.text, true)
+	}
+	for i, dc := range dcs {
+		rn.compareDeviation(dc, outs[len(hcs)+len(zcs)+i])
 	}
 }
 
